@@ -74,7 +74,10 @@ def unescape(body):
 COQ_RESERVED = {"end", "at", "fix", "cofix", "fun", "with", "then", "forall", "exists", "exists2", "Type", "Prop", "Set", "using"}
 
 
-def lex(src):
+PRELUDE_NAMES = {"len", "length", "rev", "app", "fst", "snd", "combine", "firstn", "skipn", "negb", "andb", "orb"}
+
+
+def lex(src, renames=None):
     toks = []
     pos = 0
     n = len(src)
@@ -87,8 +90,12 @@ def lex(src):
         pos = m.end()
         if kind in ("ws", "lcomment", "bcomment"):
             continue
+        if kind == "ident" and renames and text in renames:
+            text = renames[text]         # per-file type renames (e.g. resolve::Error -> ResolveError)
         if kind == "ident" and text in COQ_RESERVED:
             text = text + "_"            # `end`, `at`, ... are Coq keywords: renamed consistently everywhere
+        if kind == "ident" and text in PRELUDE_NAMES and not (toks and toks[-1][1] in (".", "::", "fn")):
+            text = text + "_"            # a local named like a Gallina function the generated code uses (`len`, ...)
         toks.append((kind, text, m.start()))
     return toks
 
@@ -620,12 +627,12 @@ def strip_attrs_and_docs(toks):
     return toks
 
 
-def find_items(src):
+def find_items(src, renames=None):
     """Scan a source file's top level (and impl blocks) for fn / struct / enum / const items.
     Returns dict:  'fns': {(impl_type|None, trait|None, name): (params, ret_tokens, body_ast, span)},
                    'structs': {name: [(field, type_tokens)]}, 'enums': {name: [(variant, kind, payload)]},
                    'consts': {name: expr_ast}"""
-    toks = lex(src)
+    toks = lex(src, renames)
     out = {"fns": {}, "structs": {}, "enums": {}, "consts": {}, "errors": {}}
     scan_items(toks, 0, len(toks), None, None, out, src)
     return out
